@@ -19,7 +19,7 @@ BASHLEX_DIR = os.path.dirname(os.path.abspath(bashlex.__file__))
 ALPHABET = ['a', 'b', '=', '1', '$', '{', '}', '(', ')', '<', '>', '|', '&', ';', '!', '#',
             "'", '"', '`', '\\', '-', '~', ' ', '\n']
 KEYWORDS = ['case', 'esac', 'in', 'do', 'done', 'for', 'if', 'then', 'fi', 'function', 'while',
-            'select', 'time', 'coproc', '<<E', '<<-E', '\nE\n']
+            'select', 'time', 'coproc', '<<E', '<<E ', '<<-E', 'A', '\nE\n']
 TT = T.tokentype
 
 
@@ -202,8 +202,30 @@ def exhaustive_tasks(maxlen):
     return tasks
 
 
+FRAGMENTS = ['"', '"', "'", '`', '${', '${a', '$(', '$(', '}', ')', ')', "$'", '$"', '$[', ']', '\\',
+             '\\\n', 'a', 'b', '1', ':-', '#', '/', '%', '{', '{ ', ' }', '$', '$$', ' ', ' ', '\n',
+             '\n', '\t', ';', ';;', ';&', '&', '&&', '|', '<', '>', '<<', '<<-', '<<<', '<(', '>(',
+             '<<E', '<<E ', '<<-E', 'A', "<<'E'", '<<"E"', '<<\\E', '\nE\n', '\n\tE\n', 'E', 'case', 'case x in',
+             'esac', 'in', 'a)', '(a)', 'do', 'do ', 'done', '$( (', 'E)', 'case x in a)', 'for', 'for i in', 'if', 'then', 'fi',
+             'function', 'f()', 'time', '-p', '--', 'coproc', 'select', 'while', '!', '=', 'a=',
+             'a=(', '+=', '[[', ']]', '-', '>&', '<&', '&>', '2', '~', '((', '))', '# c']
+
+
+def fragment_inputs(n, rnd):
+    out = []
+    for _ in range(n):
+        k = rnd.randint(2, 14)
+        out.append(''.join(rnd.choice(FRAGMENTS) for _ in range(k)))
+    return out
+
+
 def random_inputs(n, seed):
     rnd = random.Random(seed)
+    half = n // 2
+    return char_inputs(n - half, rnd) + fragment_inputs(half, rnd)
+
+
+def char_inputs(n, rnd):
     letters = sorted(set(''.join(k for k in KEYWORDS if k.isalpha())))
     chars = ALPHABET + letters + ['\t', 'E', 'p', '[', ']', '2']
     out = []
@@ -281,6 +303,17 @@ HANDWRITTEN = [
     '$(a <<\\E\nx\nE\n)', '$(a <<E <<F\nx\nE\ny\nF\n)', '$(a << E\nx\nE\n)', '$(a <<-E\n\tE)',
     '$(a;case x in a) b;; esac)', '$(a\ncase x in\na) b;;\nesac\n)', '$(do)', '$(do do)', '$(a do\nb)',
     '$(a <)', '$(a <', '$(a <<', '$(a <<-', '$(<', '$(a &&)', '$(a &', '$(a ;', '$(a\n', '$(a #)',
+    '"${a:-$\'{}"', '"${a:-$\'{}}"', '"${a:-\'{}}"', '"${a:-$\'"b"}"', '"${a#$\'{}}"', '"${a/$\'{}}"',
+    '"${a/$\'{\'}}"', '${a:-$\'{}}', '"${#\'}"', '"${a\'b}"', '"${a:\'b}"',
+    '$(do case x in a) b;; esac)', '$(do\ncase x in a) b;; esac)', '$(a;do case x in a) b;; esac)',
+    '$(a; do case x in a) b;; esac; done)', '$(for i in a; do case x in a) b;; esac; done)',
+    '$(done case x in a) b;; esac)', '$(do;case x in a) b;; esac)', '$(do  case x in a) b;; esac)',
+    '$( (a <<E\nx\nE) )', '$( (a <<E\nx\nE\n) )', '$( (a <<E\nx\nE\n)\n)', '$( ( a <<E\n)\nE\n) )',
+    '$( (a <<-E\n\tx\n\tE) )', '$(a <<E\nx\n E)', '$(a <<E\nx\nE )',
+    '$(a <<E \n)\nE\n)', '$(a <<E\t\n)\nE\n)', '$(a <<E b\n)\nE\n)', '$(a <<E;b\n)\nE\n)', '$(a <<E \nx\nE\n)',
+    '$(a <<in \n)\nin\n)', '$(a <<in\n)\nin\n)', '$(a <<E<<F\n)\nE\n)', '$(a <<E <<F\n)\nF\n)\nE\n)',
+    '$(A <<E \n)\nE\n)', '$(<<E \n)\nE\n)', '$(<<E\t\n)\nE\n)', '$(A <<E \nx\nE\n)', '$(A << E \n)\nE\n)',
+    '$(A <<E B\n)\nE\n)', '$(A <<-E \n\t)\n\tE\n)',
     ']]', '; ]]', '[[', '[[ a ]]; ]]', '{ ]]; }', '$(a <\\\n', '$(a <<\\\n', '$(a <<-\\\n',
     '${a:-$"b"}', '${a:-$\'b\'}', '${a:-"$"b""}', '$(a <<E\\\\ \nx\nE\\\\\n)',
     '$(a <<"E\\x"\nx\nE\\x\n)', '$(a <<"E\'"\nx\nE\'\n)', "$(a <<\\'E\nx\n'\n)",
